@@ -294,7 +294,7 @@ func oracleUnfragment(before []cueSnap, texts []string, after []*astisub.Item) s
 }
 
 func suiteUnfragment(R *runner, r *rng) {
-	R.rule("unfragment: all lists (any order) of <=3 cues on 0..5 (quick) / <=3 on 0..6 and 4 on 0..4 (thorough) with start<=end over 1..3 texts (exhaustive); random lists of <=40 cues over 1..3 texts; inverse law: start-ordered lists free of touching same-text cues x f in 1..5, Fragment then Unfragment compared with the original (times, text, order up to equal starts); non-trivial = at least one merge happens / at least one cue is cut")
+	R.rule("unfragment: all lists (any order) of <=3 cues on 0..5 (quick) / <=3 on 0..6 and 4 on 0..4 (thorough) with start<=end over 1..3 texts (exhaustive); random lists of <=40 cues over 1..3 texts; lists of 2..7 cues whose texts have the same Item.String() under different segmentations into lines and line items (incl. no line / an empty line / an empty item); inverse law: start-ordered lists free of touching same-text cues x f in 1..5, Fragment then Unfragment compared with the original (times, text, order up to equal starts); non-trivial = at least one merge happens / at least one cue is cut")
 	run := func(items []*astisub.Item, group string) {
 		u := uidsOf(items)
 		in := &enc{}
@@ -394,6 +394,61 @@ func suiteUnfragment(R *runner, r *rng) {
 		}
 		R.countN("unfragment.random.cues", n)
 		run(items, "unfragment.random")
+	}
+
+	// same Item.String(), different segmentation into lines and line items (the comparison is on the string)
+	segs := func(cls, variant int) []astisub.Line {
+		li := func(ts ...string) astisub.Line {
+			var l astisub.Line
+			for _, t := range ts {
+				l.Items = append(l.Items, astisub.LineItem{Text: t})
+			}
+			return l
+		}
+		switch cls {
+		case 0: // "ab - cd"
+			switch variant % 4 {
+			case 0:
+				return []astisub.Line{li("ab - cd")}
+			case 1:
+				return []astisub.Line{li("ab"), li("cd")}
+			case 2:
+				return []astisub.Line{li("ab - ", "cd")}
+			default:
+				return []astisub.Line{li("a", "b"), li("cd")}
+			}
+		case 1: // "Hello world"
+			switch variant % 3 {
+			case 0:
+				return []astisub.Line{li("Hello world")}
+			case 1:
+				return []astisub.Line{li("Hello ", "world")}
+			default:
+				return []astisub.Line{li("Hel", "lo", " world")}
+			}
+		default: // ""
+			switch variant % 3 {
+			case 0:
+				return nil
+			case 1:
+				return []astisub.Line{{}}
+			default:
+				return []astisub.Line{li("")}
+			}
+		}
+	}
+	NS := 600
+	if R.tier == "thorough" {
+		NS = 12000
+	}
+	for c := 0; c < NS; c++ {
+		n := 2 + r.intn(6)
+		items := randItems(r, n, 1, 10, 1, r.chance(1, 3))
+		for _, it := range items {
+			it.Lines = segs(r.intn(3), r.intn(12))
+		}
+		R.countN("unfragment.segmentation.cues", n)
+		run(items, "unfragment.segmentation")
 	}
 
 	// inverse law
